@@ -11,7 +11,7 @@ from lomond.session import WebsocketSession
 from lomond.websocket import WebSocket
 
 from pyvc.contracts import contract, Contract, T, mk, Raises, REG
-from pyvc.sval import SBytes, MRef, SOpt, SStr, Opaque, fresh, iv, BYTES, BYTEARRAY, beq
+from pyvc.sval import SBytes, MRef, SOpt, SStr, Opaque, fresh, iv, BYTES, BYTEARRAY, beq, B
 from pyvc import sval
 from pyvc.externals import xor8
 from spec import rfc6455
@@ -74,6 +74,24 @@ class Write(Contract):
         def on_release(ip, lock):
             # C12 monitor invariant at every release of the session lock
             ip.st.oblige('C12:monitor@release(Close on the wire => closing or closed)', I12(ip.st, W), tags=('C12',))
+        def on_acquire(ip, lock):
+            # interference (Owicki-Gries rely): before this thread got the lock, other threads may have
+            # closed the websocket - the flags only move forward (open -> closing -> closed), the
+            # socket may have been released, and I12 holds whenever the lock is free
+            st2 = ip.st
+            c0, d0 = st2.get(W.state, 'closing'), st2.get(W.state, 'closed')
+            s0 = st2.get(W.session, '_sock')
+            c1, d1 = fresh('closing_rely', B), fresh('closed_rely', B)
+            st2.heap[W.state.oid].f['closing'] = c1
+            st2.heap[W.state.oid].f['closed'] = d1
+            st2.assume(Implies(d0, d1), Implies(c0, Or(c1, d1)))
+            if isinstance(s0, SOpt):
+                gone = fresh('sock_gone_rely', B)
+                st2.heap[W.session.oid].f['_sock'] = SOpt(Or(s0.is_none, gone), s0.val)
+            st2.ghost['wc'] = Or(wire_has_close(st2), fresh('wc_rely', B))
+            st2.assume(I12(st2, W))
+            st2.ghost['locked_snap'] = st2.snapshot()      # the state as this critical section sees it
+        st.ghost['on_acquire'] = on_acquire
         st.ghost['sendall_hook'] = on_sendall
         st.ghost['sent_hook'] = on_sent
         st.ghost['on_release'] = on_release
@@ -97,7 +115,13 @@ class Write(Contract):
         return []
 
     def raises(self, ip, a, old):
-        return write_raises(ip, ip.st.ghost['W'], old)
+        # under concurrency the refusal conditions are those seen inside the critical section
+        seen = ip.st.ghost.get('locked_snap') if ip.reading == 'body' else None
+        specs = write_raises(ip, ip.st.ghost['W'], seen or old)
+        if seen is not None:
+            for r in specs:
+                r.ensures = [('writes-nothing', BoolVal(len(wire_since(ip, old)) == 0))]
+        return specs
 
     def result(self, ip, a, old):
         ip.st.ghost.setdefault('wire_log', []).append(ip.bytes_of(a.data))
@@ -114,6 +138,9 @@ class Write(Contract):
             c1 = st.get(W.state, 'closing')
             c0 = old.get(W.state, 'closing')
             flag = a.closing if isinstance(a.closing, bool) else a.closing
+            seen = st.ghost.get('locked_snap') if ip.reading == 'body' else None
+            if seen is not None:
+                c0 = seen.get(W.state, 'closing')
             out.append(('closing-set-iff-asked', c1 == (Or(c0, flag) if not isinstance(flag, bool) else (BoolVal(True) if flag else c0))))
         g = st.ghost[W.lock.key]
         out.append(('lock-released', BoolVal(g['held'] == old.ghost[W.lock.key]['held'])))
